@@ -64,7 +64,7 @@ Theorem apply_known_root :
   (forall a b, digest_eqb a b = true <-> a = b) ->
   forall (root_of : kvmap -> digest) (d : db digest) (src dst : root digest) (wl : writelog) (old : kvmap),
   follows digest dst src = true ->
-  has_root digest digest_eqb d dst = false ->
+  has_root digest digest_eqb root_of d dst = false ->
   open_root digest digest_eqb root_of d src = Some old ->
   (snd (apply digest digest_eqb root_of d src dst wl) = AOk <->
    root_of (apply_writelog old wl) = r_hash dst).
@@ -87,7 +87,7 @@ Theorem apply_rejected_no_root :
   snd (apply digest digest_eqb root_of d src dst wl) = AMismatch \/
   snd (apply digest digest_eqb root_of d src dst wl) = AOther ->
   fst (apply digest digest_eqb root_of d src dst wl) = d /\
-  has_root digest digest_eqb (fst (apply digest digest_eqb root_of d src dst wl)) dst = false.
+  has_root digest digest_eqb root_of (fst (apply digest digest_eqb root_of d src dst wl)) dst = false.
 Proof. exact apply_rejected_no_root_lem. Qed.
 Print Assumptions apply_rejected_no_root.
 
@@ -96,7 +96,7 @@ Theorem apply_ok_persisted :
   (forall a b, digest_eqb a b = true <-> a = b) ->
   forall (root_of : kvmap -> digest) (d : db digest) (src dst : root digest) (wl : writelog),
   snd (apply digest digest_eqb root_of d src dst wl) = AOk ->
-  has_root digest digest_eqb (fst (apply digest digest_eqb root_of d src dst wl)) dst = true /\
+  has_root digest digest_eqb root_of (fst (apply digest digest_eqb root_of d src dst wl)) dst = true /\
   (fst (apply digest digest_eqb root_of d src dst wl) = d \/
    exists old, open_root digest digest_eqb root_of d src = Some old /\
      fst (apply digest digest_eqb root_of d src dst wl) = d ++ [(dst, apply_writelog old wl)] /\
@@ -120,13 +120,13 @@ Theorem corrupted_log_rejected :
   forall (root_of : kvmap -> digest) (d : db digest) (src dst : root digest)
          (wl' : writelog) (old new : kvmap),
   follows digest dst src = true ->
-  has_root digest digest_eqb d dst = false ->
+  has_root digest digest_eqb root_of d dst = false ->
   open_root digest digest_eqb root_of d src = Some old ->
   r_hash dst = root_of new ->
   apply_writelog old wl' <> new ->
   (snd (apply digest digest_eqb root_of d src dst wl') = AMismatch /\
    fst (apply digest digest_eqb root_of d src dst wl') = d /\
-   has_root digest digest_eqb (fst (apply digest digest_eqb root_of d src dst wl')) dst = false)
+   has_root digest digest_eqb root_of (fst (apply digest digest_eqb root_of d src dst wl')) dst = false)
   \/ (exists x y : kvmap, x <> y /\ root_of x = root_of y).
 Proof. exact corrupted_log_rejected_lem. Qed.
 Print Assumptions corrupted_log_rejected.
@@ -144,8 +144,8 @@ Theorem sync_reaches_end_root :
   r_hash dst = root_of (contents (run_batch old ops)) ->
   Permutation (commit_writelog (run_batch old ops)) wl ->
   snd (apply digest digest_eqb root_of d src dst wl) = AOk /\
-  has_root digest digest_eqb (fst (apply digest digest_eqb root_of d src dst wl)) dst = true /\
-  (has_root digest digest_eqb d dst = false ->
+  has_root digest digest_eqb root_of (fst (apply digest digest_eqb root_of d src dst wl)) dst = true /\
+  (has_root digest digest_eqb root_of d dst = false ->
    fst (apply digest digest_eqb root_of d src dst wl) = d ++ [(dst, contents (run_batch old ops))]).
 Proof. exact sync_reaches_end_root_lem. Qed.
 Print Assumptions sync_reaches_end_root.
